@@ -15,10 +15,114 @@
 //@subst /println!\([^;]*\);/ -> "{}"
 //@endslice
 
+// C09: the flag-handling regions of validate() and learn(), each emitted verbatim as a method of its own.
+//@region fn=verif_validate_prologue impl=Network src=validate part="region:/let mut training: bool = false;/../for layer in &mut self\.layers \{/" sig="(&mut self) -> bool" tail="training"
+//@region fn=verif_validate_epilogue impl=Network src=validate part="region:/if training \{/../if training \{/" sig="(&mut self, training: bool)" tail=""
+//@region fn=verif_learn_entry impl=Network src=learn part="region:/self\.layers\.iter_mut\(\)\.for_each\(\|layer\| match layer \{/../self\.layers\.iter_mut\(\)\.for_each\(\|layer\| match layer \{/" sig="(&mut self)" tail=""
+//@region fn=verif_learn_exit impl=Network src=learn part="region:/for layer in &mut self\.layers \{/../for layer in &mut self\.layers \{/" sig="(&mut self)" tail=""
+
 #[cfg(kani)]
 mod harnesses {
     use super::*;
     use crate::tensor::{Shape, Tensor};
+    use crate::activation::Activation;
+
+    fn random_stub(shape: Shape, _min: f32, _max: f32) -> Tensor {
+        match shape {
+            Shape::Single(n) => Tensor::single(vec![1.0; n]),
+            Shape::Double(r, c) => Tensor::double(vec![vec![1.0; c]; r]),
+            Shape::Triple(c, h, w) => Tensor::triple(vec![vec![vec![1.0; w]; h]; c]),
+            _ => panic!("unsupported in stub"),
+        }
+    }
+    /// layer kinds: 0 dense, 1 convolution, 2 deconvolution, 3 max-pool, 4 feedback block of one dense layer
+    fn make_layer(kind: u8, training: bool) -> Layer {
+        match kind {
+            0 => { let mut l = dense::Dense::create(Shape::Single(1), Shape::Single(1), &Activation::Linear, false, Some(0.5)); l.training = training; Layer::Dense(l) }
+            1 => { let mut l = convolution::Convolution::create(Shape::Triple(1, 1, 1), 1, &Activation::Linear, (1, 1), (1, 1), (0, 0), (1, 1), Some(0.5)); l.training = training; Layer::Convolution(l) }
+            2 => { let mut l = deconvolution::Deconvolution::create(Shape::Triple(1, 1, 1), 1, &Activation::Linear, (1, 1), (1, 1), (0, 0), Some(0.5)); l.training = training; Layer::Deconvolution(l) }
+            3 => Layer::Maxpool(maxpool::Maxpool::create(Shape::Triple(1, 1, 1), (1, 1), (1, 1))),
+            _ => {
+                let inner = make_layer(0, training);
+                Layer::Feedback(feedback::verif_feedback::verif_make_block(vec![inner], HashMap::new(), vec![vec![0]],
+                    feedback::Accumulation::Mean, Shape::Single(1)))
+            }
+        }
+    }
+    fn flag(layer: &Layer) -> Option<bool> {
+        match layer {
+            Layer::Dense(l) => Some(l.training),
+            Layer::Convolution(l) => Some(l.training),
+            Layer::Deconvolution(l) => Some(l.training),
+            Layer::Maxpool(_) => None,
+            Layer::Feedback(b) => flag(&b.layers[0]),
+        }
+    }
+    fn all_flags(net: &Network, want: bool) -> bool {
+        let mut i = 0;
+        while i < net.layers.len() {
+            if let Some(f) = flag(&net.layers[i]) { if f != want { return false; } }
+            i += 1;
+        }
+        true
+    }
+
+    fn dropout_must_not_run(_t: &mut Tensor, _p: f32) { panic!("Tensor::dropout reached although the layer is not training"); }
+    fn small() -> f32 { let k: i8 = kani::any(); kani::assume(k >= -3 && k <= 4); k as f32 }
+
+    // @harness c09_guard_dense props=C09 tier=quick kind=bounded flags="--no-overflow-checks" bound="dense 1->1 with dropout 0.5, training = false; input in -3..4" what="a layer that is not training never applies dropout (Tensor::dropout unreachable), and with training = true it does reach it" timeout=900
+    #[kani::proof]
+    #[kani::unwind(4)]
+    #[kani::stub(crate::tensor::Tensor::random, random_stub)]
+    #[kani::stub(crate::tensor::Tensor::dropout, dropout_must_not_run)]
+    fn c09_guard_dense() {
+        let l = dense::Dense::create(Shape::Single(1), Shape::Single(1), &Activation::Linear, true, Some(0.5));
+        assert!(!l.training);
+        let x = small();
+        let (_pre, post) = l.forward(&Tensor::single(vec![x]));
+        assert!(post.get_flat()[0] == x + 1.0);
+        kani::cover!(x == 2.0);
+        std::mem::forget(l);
+    }
+    macro_rules! flags_harness {
+        ($name:ident, [$($k:expr),+]) => {
+            #[kani::proof]
+            #[kani::unwind(6)]
+            #[kani::stub(std::collections::hash_map::RandomState::new, rs_stub)]
+            #[kani::stub(crate::tensor::Tensor::random, random_stub)]
+            fn $name() {
+                let start: bool = kani::any();       // the state learn() calls validate() in (true) or a plain call (false)
+                let mut net = Network::new(Shape::Single(1));
+                $( net.layers.push(make_layer($k, start)); )+
+                // validate(): every layer predicts without dropout ...
+                let training = net.verif_validate_prologue();
+                assert!(all_flags(&net, false));
+                // ... and afterwards the training state is what it was before
+                net.verif_validate_epilogue(training);
+                assert!(all_flags(&net, start));
+                // learn(): training mode on entry, prediction mode after it returns
+                net.verif_learn_entry();
+                assert!(all_flags(&net, true));
+                net.verif_learn_exit();
+                assert!(all_flags(&net, false));
+                kani::cover!(start);
+                kani::cover!(!start);
+                std::mem::forget(net);
+            }
+        };
+    }
+    // @harness c09_flags_dense_dense props=C09 tier=quick kind=bounded flags="--no-overflow-checks" bound="layers [dense, dense], flags all on / all off" what="validate() turns dropout off in every layer and restores it; learn() entry/exit set/clear every flag" timeout=900
+    flags_harness!(c09_flags_dense_dense, [0u8, 0u8]);
+    // @harness c09_flags_conv_dense_dense props=C09 tier=quick kind=bounded flags="--no-overflow-checks" bound="layers [conv, dense, dense]" what="flag regions" timeout=900
+    flags_harness!(c09_flags_conv_dense_dense, [1u8, 0u8, 0u8]);
+    // @harness c09_flags_dense_pool_deconv props=C09 tier=thorough kind=bounded flags="--no-overflow-checks" bound="layers [dense, maxpool, deconv]" what="flag regions" timeout=1200
+    flags_harness!(c09_flags_dense_pool_deconv, [0u8, 3u8, 2u8]);
+    // @harness c09_flags_dense_feedback_dense props=C09 tier=thorough kind=bounded flags="--no-overflow-checks" bound="layers [dense, feedback(dense), dense]" what="flag regions incl. a feedback block" timeout=1200
+    flags_harness!(c09_flags_dense_feedback_dense, [0u8, 4u8, 0u8]);
+    // @harness c09_flags_feedback_conv props=C09 tier=thorough kind=bounded flags="--no-overflow-checks" bound="layers [feedback(dense), conv]" what="flag regions" timeout=1200
+    flags_harness!(c09_flags_feedback_conv, [4u8, 1u8]);
+    // @harness c09_flags_dense_dense_dense_conv props=C09 tier=thorough kind=bounded flags="--no-overflow-checks" bound="layers [dense, dense, dense, conv]" what="flag regions" timeout=1800
+    flags_harness!(c09_flags_dense_dense_dense_conv, [0u8, 0u8, 0u8, 1u8]);
 
     fn rs_stub() -> std::collections::hash_map::RandomState {
         // fixed hash seeds (std reads them from the OS)
